@@ -221,14 +221,17 @@ def create_redist_dict(
     realloc = {}
     for pair in sorted_scores:
       if is_outlier(pair[1], total_score, group_resource, dim - 1):
-        realloc.update({pair[0]: dim})
-        group_resource -= (dim - 1)
-        total_score -= pair[1]
+        allocation = dim
       else:
         unit_rsc = group_resource / total_score if total_score else 0.0
-        realloc.update({pair[0]: rd(pair[1] * unit_rsc)})
-        group_resource -= (rd(pair[1] * unit_rsc) - 1)
-        total_score -= pair[1]
+        allocation = rd(pair[1] * unit_rsc)
+      # Round-off in the running float total (e.g. after a dominant score has
+      # been subtracted from it) must never push an allocation outside
+      # [1, dim] or beyond the resource that is left.
+      allocation = max(1, min(allocation, dim, group_resource + 1))
+      realloc.update({pair[0]: allocation})
+      group_resource -= (allocation - 1)
+      total_score -= pair[1]
 
     for key in realloc:
       assert realloc[key] <= dim, (key, realloc[key], dim)
